@@ -31,7 +31,7 @@ pub fn run() {
         let variant = t[1].to_string();
         let runs: usize = t[2].parse().unwrap();
         let mut seed: u64 = t[3].parse().unwrap();
-        let (mut panics, mut hangs, mut rebind_failures) = (0u64, 0u64, 0u64);
+        let (mut panics, mut hangs, mut rebind_failures, mut rebind_transient) = (0u64, 0u64, 0u64, 0u64);
         let mut where_ = String::new();
         LAST_PANIC.lock().unwrap().clear();
         for i in 0..runs {
@@ -64,7 +64,22 @@ pub fn run() {
                 (a, b, addr)
             });
             if variant == "rebind" && std::net::UdpSocket::bind(addr).is_err() {
-                rebind_failures += 1;
+                // not free at once.  Transient (connections still draining when the idle-wait bound was hit keep the
+                // old socket until their drivers have handled the rebind) or lasting (the endpoint still owns it)?
+                let t0 = std::time::Instant::now();
+                let mut freed = false;
+                while t0.elapsed() < Duration::from_millis(1500) {
+                    std::thread::sleep(Duration::from_millis(10));
+                    if std::net::UdpSocket::bind(addr).is_ok() {
+                        freed = true;
+                        break;
+                    }
+                }
+                if freed {
+                    rebind_transient += 1;
+                } else {
+                    rebind_failures += 1;
+                }
             }
             // a seeded amount of spinning so that the drop lands at different moments
             for _ in 0..spin {
@@ -98,7 +113,7 @@ pub fn run() {
             }
         }
         format!(
-            "runs={runs} panics={panics} hangs={hangs} rebind_failures={rebind_failures} where={}",
+            "runs={runs} panics={panics} hangs={hangs} rebind_failures={rebind_failures} rebind_transient={rebind_transient} where={}",
             if where_.is_empty() { "-".into() } else { where_.replace(' ', "_") }
         )
     });
